@@ -3,7 +3,10 @@
 // the shim packages as virtual packages github.com/golang/geo/verifshim/*.
 // /repo itself is not touched.
 //
-// usage: vinstr <repo> <shimdir> <outdir>   (writes <outdir>/overlay.json)
+// usage: vinstr [-mem] <repo> <shimdir> <outdir>   (writes <outdir>/overlay.json)
+//
+// With -mem the sources of package s2 are additionally instrumented so that every access to
+// memory another goroutine could reach is reported to the scheduler's race check (mem.go).
 package main
 
 import (
@@ -17,13 +20,35 @@ import (
 )
 
 func main() {
+	mem := false
+	if len(os.Args) > 1 && os.Args[1] == "-mem" {
+		mem = true
+		os.Args = append(os.Args[:1], os.Args[2:]...)
+	}
 	if len(os.Args) != 4 {
-		fmt.Fprintln(os.Stderr, "usage: vinstr <repo> <shimdir> <outdir>")
+		fmt.Fprintln(os.Stderr, "usage: vinstr [-mem] <repo> <shimdir> <outdir>")
 		os.Exit(2)
 	}
 	repo, shim, out := os.Args[1], os.Args[2], os.Args[3]
 	replace := map[string]string{}
 	rewritten := 0
+	memText := map[string]string{}
+	if mem {
+		texts, sites, stats, err := instrumentMem(repo, filepath.Join(repo, "s2"), "github.com/golang/geo/s2")
+		if err != nil {
+			fmt.Fprintln(os.Stderr, "vinstr -mem:", err)
+			os.Exit(2)
+		}
+		memText = texts
+		hook := filepath.Join(out, "src", "s2", "verif_mem_on.go")
+		os.MkdirAll(filepath.Dir(hook), 0o755)
+		if err := os.WriteFile(hook, []byte(memHookFile(sites)), 0o644); err != nil {
+			fmt.Fprintln(os.Stderr, "vinstr:", err)
+			os.Exit(2)
+		}
+		replace[filepath.Join(repo, "s2", "verif_mem_on.go")] = hook
+		fmt.Fprintf(os.Stderr, "vinstr -mem: %d files of s2 instrumented, %d read sites, %d write sites\n", len(texts), stats["read"], stats["write"])
+	}
 	err := filepath.Walk(repo, func(path string, info os.FileInfo, err error) error {
 		if err != nil {
 			return err
@@ -42,6 +67,10 @@ func main() {
 		src, err := os.ReadFile(path)
 		if err != nil {
 			return err
+		}
+		instrumented := false
+		if t, ok := memText[path]; ok {
+			src, instrumented = []byte(t), true
 		}
 		fset := token.NewFileSet()
 		f, err := parser.ParseFile(fset, path, src, parser.ImportsOnly)
@@ -70,7 +99,7 @@ func main() {
 			end := fset.Position(imp.End()).Offset
 			edits = append(edits, edit{start, end, fmt.Sprintf("%s %q", name, target)})
 		}
-		if len(edits) == 0 {
+		if len(edits) == 0 && !instrumented {
 			return nil
 		}
 		res := string(src)
